@@ -258,8 +258,9 @@ def run(tier: str) -> int:
                 if not np.allclose(crit.strain_tensor, strain, atol=1e-12):
                     skipped_strain += 1  # the package defines strain differently from this realisation: lattice layer not applicable
                     continue
-            if ndraws != 1:
-                rep.violation(f"draws:{p['ens']}", f"{p['ens']} criteria drew {ndraws} uniforms from the simulation's generator (expected exactly 1)", ctx)
+            # one uniform decides the trial; a trial with A >= 1 may be accepted without drawing
+            if ndraws > 1 or (ndraws == 0 and c["loga"] < 0):
+                rep.violation(f"draws:{p['ens']}", f"{p['ens']} criteria drew {ndraws} uniforms from the simulation's generator for a trial with log2 A = {c['loga']}", ctx)
             if got != c["accept"]:
                 shape = "shear" if variant % 4 >= 2 else "noshear"
                 regime = "A>=1" if c["loga"] >= 0 else "A<1"
